@@ -2,3 +2,4 @@ import Check.Grey
 import Check.Decode
 import Check.Encode
 import Check.Prim
+import Check.Grey2
